@@ -93,6 +93,35 @@ func genCase(t *rapid.T) Case {
 		}
 		c.Variants = append(c.Variants, v)
 	}
+	// parameters named like special variables (goawk accepts that): inside the function the name is the parameter
+	if rapid.Bool().Draw(t, "specialnames") {
+		specials := rapid.Permutation([]string{"NR", "FNR", "FS", "OFS", "ORS", "RS", "SUBSEP", "RSTART", "RLENGTH", "CONVFMT", "OFMT", "FILENAME", "RT", "ARGC"}).Draw(t, "specials")
+		v := Variant{Order: def.Order, Func: def.Func, Global: def.Global}
+		isGlobal := map[string]bool{}
+		for _, g := range def.Global {
+			isGlobal[g] = true
+		}
+		for i := range def.Param {
+			var ps []string
+			for j, n := range def.Param[i] {
+				if isGlobal[n] || j >= len(specials) {
+					ps = append(ps, n) // keeps shadowing a global
+				} else {
+					ps = append(ps, specials[(i+j)%len(specials)])
+				}
+			}
+			// distinct within the function
+			seen := map[string]bool{}
+			for j := range ps {
+				if seen[ps[j]] {
+					ps[j] = def.Param[i][j]
+				}
+				seen[ps[j]] = true
+			}
+			v.Param = append(v.Param, ps)
+		}
+		c.Variants = append(c.Variants, v)
+	}
 	return c
 }
 
